@@ -27,6 +27,7 @@ inductive Expr where
   | pow (a b : Expr)
   | call (f : Name) (args : List Expr) (kw : List (Name × Expr))
   | sub (agg idx : Expr)
+  | attr (agg : Expr) (name : String)     -- pymbolic `Lookup`: `agg.name`
   | cmp (op : String) (a b : Expr)
   | lnot (a : Expr)
   | land (cs : List Expr)
@@ -48,6 +49,7 @@ def size : Expr → Nat
   | .pow a b => 1 + a.size + b.size
   | .call _ args kw => 1 + sizeL args + sizeK kw
   | .sub a i => 1 + a.size + i.size
+  | .attr a _ => 1 + a.size
   | .cmp _ a b => 1 + a.size + b.size
   | .lnot a => 1 + a.size
   | .land cs => 1 + sizeL cs
@@ -74,6 +76,7 @@ def beq : Expr → Expr → Bool
   | .pow a1 a2, .pow b1 b2 => beq a1 b1 && beq a2 b2
   | .call f a k, .call g b l => f == g && beqL a b && beqK k l
   | .sub a1 a2, .sub b1 b2 => beq a1 b1 && beq a2 b2
+  | .attr a n, .attr b m => n == m && beq a b
   | .cmp o a1 a2, .cmp p b1 b2 => o == p && beq a1 b1 && beq a2 b2
   | .lnot a, .lnot b => beq a b
   | .land a, .land b => beqL a b
